@@ -10,6 +10,7 @@ import Heathcliff.Proofs.C01Y
 import Heathcliff.Proofs.GenScalingSpec
 import Heathcliff.Proofs.GenRns8
 import Heathcliff.Proofs.GenRns19
+import Heathcliff.Proofs.GenContextC01
 
 /- Property theorems only (statements verbatim; proofs are the helper lemmas of Heathcliff/Proofs). -/
 namespace HC.C01
@@ -595,5 +596,33 @@ theorem drv_bfv_encrypt_decrypt_inputs_sharp : type_of% @HC.drv_bfv_encrypt_decr
 theorem gen_decrypt_scale_and_round_rounds : type_of% @HC.gr_decrypt_scale_and_round_rounds := @HC.gr_decrypt_scale_and_round_rounds
 /-- BGV: the generated `RNSTool::decrypt_mod_t` returns the centred residue modulo t, provided the erased f64 rounding is exact (see `C10.gen_decrypt_mod_t_centred`) -/
 theorem gen_decrypt_mod_t_centred : type_of% @HC.gr_decrypt_mod_t_centred := @HC.gr_decrypt_mod_t_centred
+
+/-! ### round 7 (worker T): the scaling constants `multiply_add_plain` reads from the context are the ones GENERATED from `HeContext::validate`
+    (Gen/ContextFns.lean `GenX.validate_bfv_consts`, see Props/C13.lean `gen_validate_bfv_consts_eq`); Proofs/GenContextC01.lean -/
+
+/-- the constants produced by the code generated from `HeContext::validate` for a level (well-formed moduli, `2 ≤ t < 2^61`, `t < Q = Π q_j`;
+    `ops` turned into `MultiplyU64ModOperand`s entry by entry with the generated `MultiplyU64ModOperand::new`) satisfy `ScalingOK`, the threshold is
+    `⌊(t+1)/2⌋` and the remainder is `Q mod t` -/
+theorem gen_validate_constants_scalingOK {l : Level} {cdp : Array MulOperand} {ops uhi puhi : List Nat} {fast qmt puht : Nat} {c0 u0 p0 : List Nat}
+    (hw : ∀ m ∈ l.qs.toList, m.WF) (hk : 1 ≤ l.size) (ht2 : 2 ≤ l.t.value) (ht61 : l.t.value < 2^61)
+    (htQ : l.t.value < Ctx.prodL (HC.gcx_vals l))
+    (hgen : GenX.validate_bfv_consts l.qs.toList l.t.value (fromNat l.size (Ctx.prodL (HC.gcx_vals l))) c0 u0 p0 = .ok (ops, uhi, puhi, fast, qmt, puht))
+    (hsz : l.size ≤ cdp.size)
+    (hcdp : ∀ j, j < l.size → GenW.mulop_new (ops.getD j 0) (l.q j) = .ok (cdp.getD j default)) :
+    ScalingOK l (Ctx.prodL (HC.gcx_vals l)) cdp ∧ puht = (l.t.value + 1) / 2 ∧ qmt = Ctx.prodL (HC.gcx_vals l) % l.t.value :=
+  HC.gcx_scalingOK hw hk ht2 ht61 htQ hgen hsz hcdp
+
+/-- **source of `validate` → source of `multiply_add_plain` → arithmetic**: with exactly those generated constants as its context inputs, the code
+    generated from `multiply_add_plain` adds `Δ(m_i) = round(Q·m_i/t)` modulo `q_j` to coefficient `i` of component `j` -/
+theorem gen_multiply_add_plain_with_validated_constants :
+    type_of% @HC.gcx_multiply_add_plain_with_validated_constants := @HC.gcx_multiply_add_plain_with_validated_constants
+
+/- non-vacuity: the level of `scalingOK_example` (97·113, t = 17): the generated `validate` code yields the operands (62, 79), threshold 9, remainder 13,
+   and `MultiplyU64ModOperand::new` on the operands gives the table used there -/
+set_option maxRecDepth 100000 in
+example : GenX.validate_bfv_consts HC.gz_exLevel.qs.toList HC.gz_exLevel.t.value (fromNat HC.gz_exLevel.size (Ctx.prodL (HC.gcx_vals HC.gz_exLevel))) [] [] [] =
+    .ok ([62, 79], [13, 13], [80, 96], 1, 13, 9) := by decide
+example : GenW.mulop_new 62 (HC.gz_exLevel.q 0) = .ok (HC.gz_exCdp.getD 0 default) ∧ GenW.mulop_new 79 (HC.gz_exLevel.q 1) = .ok (HC.gz_exCdp.getD 1 default) := by
+  constructor <;> rfl
 
 end HC.C01
